@@ -48,6 +48,56 @@ CLAIMS = {
                   "run-time contract checks on edit histories",
         note=TB + "; Inv_ns assumed on entry (fresh containers are empty); Bundle.add/__setattr__ and the decorators "
              "are covered only by the bounded part"),
+    "C01": dict(
+        category="other",
+        text="Hybrid. Proved (pyvc): export_slice emits exactly the bits the slice denotes with VLSIR's inclusive top "
+             "and never a bit outside the signal; _get_inner / Slice.top/bot/step/width return one coherent resolved "
+             "index; export_port_dir is total and name-preserving. Bounded (labelled): to_proto's end-to-end "
+             "postcondition - leaf-net partition, devices with parameters and top-level ports of the package equal "
+             "the meaning of the design as written, computed before elaboration by an independent reference "
+             "interpreter - on ~960 (quick) design programs covering every connectable feature at depth 1-3; the "
+             "netlisters' MSB-first reading is probed on every run.",
+        design_ref="DESIGN.md section 4 C01",
+        technique="contract-based deductive verification of the export leaves (pyvc, z3) + bounded run-time "
+                  "evaluation of to_proto's postcondition against a reference interpreter",
+        note=TB + "; the elaboration passes themselves (graph rewriting) are covered only by the bounded "
+             "postcondition; rtc/meaning.py is a trusted specification"),
+    "C06": dict(
+        category="other",
+        text="Hybrid. Bounded (labelled): wf_package(to_proto(d)) - unique module/signal/instance names, definition "
+             "before use, ports name declared signals, every instance refers to a package module / declared external "
+             "module / known primitive and connects each port exactly once with the port's width, targets inside "
+             "their signals; from_proto and the spice/spectre netlisters accept - on the design family plus "
+             "Series/MosStack/Wrapper. Proved (pyvc): exported slices stay inside their signal and have the width "
+             "they denote (export_slice over _slice_inner's contract).",
+        design_ref="DESIGN.md section 4 C06",
+        technique="bounded run-time evaluation of to_proto's well-formedness postcondition + pyvc proofs of the "
+                  "slice-bounds clause",
+        note=TB + "; rtc/wf.py is a trusted specification; export_module/export_instance are not under a proved contract"),
+    "C08": dict(
+        category="other",
+        text="Hybrid. Proved (pyvc, from the current source): ElabPass.elaborate_module_base restores the pending set "
+             "on every exit (normal and exceptional), only grows done, returns cached modules untouched, poisons a "
+             "module whose pass-specific rewrite raised and refuses poisoned modules; elaborate_instance_base, "
+             "elaborate_instantiable, elaborate_tops and the base-class hooks carry the same contract; generator.run "
+             "restores pending and the call stack on every exit, returns cached modules without running the body and "
+             "rejects circular calls; a syntactic frame audit shows nothing else touches the caches. Bounded "
+             "(labelled): a failing pass injected at every (pass position, module) of 14 designs with retry / "
+             "unrelated / sharing continuations against fresh-process references, real design faults with "
+             "repair-and-retry, generator bodies raising once.",
+        design_ref="DESIGN.md section 4 C08",
+        technique="contract-based deductive verification with exceptional postconditions and virtual-callee contracts "
+                  "(pyvc, z3) + bounded fault injection",
+        note=TB + "; overriding pass hooks are assumed to obey the virtual contract (audited not to touch the cache)"),
+    "C11": dict(
+        category="other",
+        text="Hybrid. Bounded (labelled): to_proto(from_proto(P).tops) == P by protobuf message equality for every "
+             "package of the design family and of a primitive/external-module parameter space; prefix and port "
+             "direction tables round-trip exhaustively. Proved (pyvc): export_slice's inclusive-top translation and "
+             "export_port_dir (the import side mirrors are exercised by the bounded part).",
+        design_ref="DESIGN.md section 4 C11",
+        technique="bounded run-time round-trip equality + pyvc proofs of export leaves",
+        note=TB + "; import_* functions are not under a proved contract"),
 }
 
 NA_REASON = "check not built yet (work in progress; see DESIGN.md section 4 for the plan)"
